@@ -200,7 +200,7 @@ def enumerate_cases(ctx, depth, tier):
 def observe(ctx, cfgs, cases, kind_rate, first_id=0):
     """run every case on the configurations it names, on the real code; returns (observations, statistics, last id)"""
     obs = []
-    st = {"unbuilt": 0, "exc": 0, "lin": 0, "nonlin": 0, "pos_only": 0, "neg_only": 0, "both": 0, "absent": 0, "kind": 0, "kind_snp": 0}
+    st = {"unbuilt": 0, "exc": 0, "nontrivial": 0, "lin": 0, "nonlin": 0, "pos_only": 0, "neg_only": 0, "both": 0, "absent": 0, "kind": 0, "kind_snp": 0}
     oid = first_id
     for ci, cfg in enumerate(cfgs):
         w = None
@@ -229,8 +229,10 @@ def observe(ctx, cfgs, cases, kind_rate, first_id=0):
                 st["neg_only"] += bool(n - p)
                 st["both"] += bool(p & n)
                 st["absent"] += bool((leaves(pe) & {"x", "y"}) - p - n)
+                st["nontrivial"] += bool(p | n)
             else:
                 st["nonlin"] += 1
+                st["nontrivial"] += 1
             obs.append({"id": oid, "cfg": ci + 1, "e": pe, "res": res})
     return obs, st, oid
 
@@ -361,7 +363,7 @@ def run(ctx):
         raise MachineryError("T1: the as-written model of walk_div no longer violates Linear!Sound on x / q (model lost its teeth)")
     ctx.cov["evaluations"] += total
     ctx.cov["unspecified"] += stats["unbuilt"]
-    ctx.cov["distinct_nontrivial"] = stats["pos_only"] + stats["neg_only"] + stats["both"] + stats["nonlin"]
+    ctx.cov["distinct_nontrivial"] = stats["nontrivial"]
     ctx.cov["exhaustive"] = True
     ctx.notes["stats"] = stats
     ctx.cov["c17_statistics"] = dict(stats, t1_aswritten_unsound=tally.get("T1-ASWRITTEN", 0), t1_repair_unsound=tally.get("T1-REPAIR", 0),
